@@ -126,6 +126,61 @@ def record(entry: serializers.Entry, packets: list[Any], path: str, chunking: tu
     return {"ends": ends, "events": events, "meta": f"{entry.name} path={path} sizehint={sizehint} packets={packets!r:.80} reads={list(chunking)!r:.60}"}
 
 
+def _two_streams_one_protocol(chk: Check, rng: random.Random) -> None:
+    """Two connections share one protocol object (what every server does): their reads interleave, each stream gets its own packets."""
+    from easynetwork.lowlevel._stream import BufferedStreamDataConsumer, StreamDataConsumer
+
+    n = 0
+    for e in serializers.entries():
+        if not e.incremental:
+            continue
+        for buffered in ([False, True] if e.buffered else [False]):
+            for read in (1, 5, 11):
+                proto = e.buffered_protocol() if buffered else e.stream_protocol()
+                # (a packet whose serialization is empty puts nothing on the wire: it is not part of what must arrive)
+                packets = {k: [p for p in (e.gen(rng) for _ in range(3)) if b"".join(proto.generate_chunks(p))] for k in "AB"}
+                wire = {k: b"".join(b"".join(proto.generate_chunks(p)) for p in packets[k]) for k in "AB"}
+                cons = {k: (BufferedStreamDataConsumer(proto, 64) if buffered else StreamDataConsumer(proto)) for k in "AB"}
+                got: dict[str, list[Any]] = {"A": [], "B": []}
+                pos = {"A": 0, "B": 0}
+                problem = ""
+                try:
+                    while (pos["A"] < len(wire["A"]) or pos["B"] < len(wire["B"])) and not problem:
+                        for k in "AB":
+                            if pos[k] >= len(wire[k]):
+                                continue
+                            c = cons[k]
+                            arg: Any
+                            if buffered:
+                                with memoryview(c.get_write_buffer()) as view:
+                                    m = min(read, view.nbytes, len(wire[k]) - pos[k])
+                                    view[:m] = wire[k][pos[k] : pos[k] + m]
+                                arg = m
+                            else:
+                                m = min(read, len(wire[k]) - pos[k])
+                                arg = wire[k][pos[k] : pos[k] + m]
+                            pos[k] += m
+                            while True:
+                                try:
+                                    got[k].append(c.next(arg))
+                                except StopIteration:
+                                    break
+                                arg = None
+                except Exception as exc:  # noqa: BLE001
+                    problem = f"{type(exc).__name__}: {exc}"[:120]
+                n += 1
+                chk.traces += 1
+                ok = not problem and all(len(got[k]) == len(packets[k]) and all(e.eq(x, y) for x, y in zip(got[k], packets[k])) for k in "AB")
+                if not ok:
+                    chk.violation(
+                        {"kind": "two_streams", "what": "shared_state"},
+                        f"two streams through one protocol object, reads of {read} byte(s) alternating, {'buffer-filling' if buffered else 'copying'} path, {e.name}: "
+                        f"stream A sent {packets['A']!r:.80} got {got['A']!r:.80}; stream B sent {packets['B']!r:.80} got {got['B']!r:.80} {problem}",
+                        {"kind": "two_streams", "entry": e.name, "read": read, "buffered": buffered},
+                    )
+    chk.extra["two_streams_one_protocol"] = n
+
+
 def run(chk: Check) -> None:
     quick = chk.tier == "quick"
     rng = random.Random(chk.seed)
@@ -191,6 +246,7 @@ def run(chk: Check) -> None:
     from .. import burst
 
     burst.report(chk, "round trip")
+    _two_streams_one_protocol(chk, rng)
     chk.assumptions += [
         "value equality between the delivered object and the packet sent is computed by the harness (Python ==) and asserted by the specification",
         "valid packets are those the serializer's own contract round-trips (e.g. non-empty lines without the newline sequence)",
